@@ -208,7 +208,7 @@ def step (st : St) (toks : List String) : St × String :=
       | none =>
         -- a watch from "now" forwarded through the follower's proxy: the follower answers Created only once the LEADER has
         -- confirmed the watch, so a write the client issues after Created is delivered
-        if shape == "watch" then (st, "fwd watch created delivered=1 local=-")
+        if shape == "watch" then (st, "fwd watch created delivered=1 prev=1 local=-")
         -- a proxy that knows no leader refuses (three watches), and forwards again once the election names the leader
         else if shape == "noleader" then (st, "fwd noleader refused=3 recovered=1 hung=0") else (st, "fwd bad-op")
       | some sh =>
